@@ -527,7 +527,7 @@ pub fn case() -> BoxedStrategy<Case> {
 }
 
 pub fn run(ctx: &Ctx, rep: &Report) {
-    run_prop(ctx, rep, "raw", ctx.tier.pick(5_000, 100_000), &|| case(), &check_raw);
+    run_prop(ctx, rep, "raw", ctx.tier.pick(5_000, 300_000), &|| case(), &check_raw);
     super::c09_net::run(ctx, rep);
 }
 
